@@ -20,7 +20,10 @@ RULE = ("a pool of 21 deliberately dissimilar (country|world, scenario) items (b
         "monthly series of the result, the meat and herd trajectories, raw float64 bytes) of each item computed ALONE in a freshly spawned "
         "interpreter is the reference; a rule-based state machine then runs histories of 2..6 steps in one process - run item i, run the "
         "previous item again, run an item the loader rejects, run an item and abort it with an injected exception after the first "
-        "optimisation started - and every completed run's digest must equal its reference bit for bit.  Non-trivial = history in which two "
+        "optimisation started - and every completed run's digest must equal its reference bit for bit; in addition every same-country pair of "
+        "pool items back to back, multi-country batches through one call, same-country pairs with one drawn column overridden, and - for "
+        "every option family - the same country under every value of the family in an order in which every value follows every other "
+        "value once (Eulerian walk, 172 transitions).  Non-trivial = history in which two "
         "consecutive completed runs differ in nutrition profile, population or scale, or which contains a rejected / aborted run before a "
         "checked run; distinct by hash of the step list.")
 ASSUMPTIONS = ["CBC and the herd model are deterministic for identical inputs (probe: 95 runs recomputed in other processes bit-identical)",
